@@ -38,6 +38,9 @@ PLANTED = [
      "        if not self.filled:     # count interrupted before the header was (completely) filled\n"
      "            self._fill()\n        report = []\n",
      "        report = []\n", False),
+    ('c19-revert-F8', 'C19', 'droop/rules/meek.py',
+     '        return "%s Parametric (omega = 1/10^%d)" % (name, int(self.omega10))\n',
+     '        return "%s Parametric (omega = 1/10^%d)" % (name, self.omega10)\n', False),
     ('c19-main-catches-exception-only', 'C19', 'Droop.py',
      "    except KeyboardInterrupt:\n        intr = True\n",
      "    except ArithmeticError:\n        intr = True\n", False),
